@@ -3,7 +3,7 @@ From HTA.lib Require Import Base Dag.
 From HTA.gen Require Import CpRules_gen.
 From HTA.model Require Import C08_Model C08_Host C08_Dev C08_Clip.
 From HTA.proof Require Import C08_Proofs C08_HostProofs C08_DevProofs C08_RulesTie C08_ClipProofs.
-From HTA.proof Require Import Scale C08_HostScale.
+From HTA.proof Require Import Scale C08_HostScale C08_DevScale C08_ClipScale.
 Open Scope Z_scope.
 
 Theorem C08_edges_forward_nonneg : forall zw clipped N E e, edge_ok zw clipped N E e = true ->
@@ -111,3 +111,17 @@ Theorem C08_host_resolution_independent : forall k tab acts,
   host_edges_of (map (shev k) tab) acts = map (shedge k) (host_edges_of tab acts).
 Proof. exact C08_host_scale. Qed.
 Print Assumptions C08_host_resolution_independent.
+
+(* ... and of the device-side loop: the same edges with node times and weights multiplied by k, the same verdict of the code's
+   own launch assertion (queue lengths, stream and event ids are not times) *)
+Theorem C08_dev_resolution_independent : forall k zw rows, 0 < k ->
+  drun zw [] (map (sdrow k) rows) = (map (shedge k) (fst (drun zw [] rows)), snd (drun zw [] rows)).
+Proof. exact C08_dev_scale. Qed.
+Print Assumptions C08_dev_resolution_independent.
+
+(* ... and of the window and the kept rows: the window's bounds are multiplied by k and exactly the same rows are kept *)
+Theorem C08_window_resolution_independent : forall k ann i j lo hi l, 0 < k ->
+  window ann i j (scale_evs k l) = (k * fst (window ann i j l), k * snd (window ann i j l)) /\
+  clip (k * lo) (k * hi) (scale_evs k l) = scale_evs k (clip lo hi l).
+Proof. intros k ann i j lo hi l Hk. split; [apply C08_window_scale | apply C08_clip_scale]; exact Hk. Qed.
+Print Assumptions C08_window_resolution_independent.
